@@ -176,12 +176,12 @@ Candidates(K, i) ==
     \cup
     (IF "Malleate" \in Mutations THEN
        {<<SetBlock(t, j, [t.blocks[j] EXCEPT !.sig.form = f]), Mut("Malleate", i, j, f, t.blocks[j].sig.signer.alg)>> :
-            j \in 1..n, f \in 1..3}
+            j \in 1..n, f \in 1..4}
        \cup
        {<<SetBlock(t, j, [t.blocks[j] EXCEPT !.ext[1].sig.form = f]), Mut("MalleateExt", i, j, f, t.blocks[j].ext[1].key.alg)>> :
-            j \in {x \in 1..n : t.blocks[x].ext # <<>>}, f \in 1..3}
+            j \in {x \in 1..n : t.blocks[x].ext # <<>>}, f \in 1..4}
        \cup
-       (IF IsSealed(t) THEN {<<[t EXCEPT !.proof.sig[1].form = f], Mut("MalleateSeal", i, n, f, t.proof.sig[1].signer.alg)>> : f \in 1..3} ELSE {})
+       (IF IsSealed(t) THEN {<<[t EXCEPT !.proof.sig[1].form = f], Mut("MalleateSeal", i, n, f, t.proof.sig[1].signer.alg)>> : f \in 1..4} ELSE {})
      ELSE {})
     \cup
     (IF "Forge" \in Mutations THEN
